@@ -271,7 +271,7 @@ def gen_c09(rnd, n, thorough=False):
         db, dr = dest.split('/', 1)
         # either side may be the URL of a server serving the same directory (the verdict is the same)
         side = rnd.pick(['local', 'local', 'remote_src', 'remote_dest'])
-        if kind.startswith('missing') or kind == 'unsynced_dest':
+        if kind in ('missing_both', 'unsynced_dest'):
             side = 'local'
         sname = 'a.wsp'
         if side != 'local' and kind != 'same' and rnd.chance(0.5):
@@ -425,6 +425,13 @@ def gen_c10(rnd, n, thorough=False):
             cases.append(many_files_case(rnd, 'c10-%d-many' % c, ['sum']))
         if c == 4:
             cases.append({'id': 'c10-wsitem', 'lines': ['cliwsitem'], 'tags': {'layout': 'blank_in_item_name', 'kind': 'wsitem', 'files': 2, 'window': 'default'}})
+        if c == 3:
+            # several items, the first one slow (one of its files is held for more than a second): every item is
+            # summed up to ITS OWN clock (the default end of the window), also the second and later ones
+            l2 = CLI_LAYOUTS[rnd.pick(['two_1s', 'three_1s', 'single'])]
+            sl = item_tree(rnd, l2, 2, 0x3f000000, ['i1', 'i2', 'i3'], 2, 1.0)
+            sl.append("clisum base=s item=i* src=*.wsp from=0 until=0 archive=-1 header=1 hold=s/i1/f1.wsp:1300")
+            cases.append({'id': 'c10-%d-slowitem' % c, 'lines': sl, 'tags': {'layout': 'live', 'kind': 'slow_first_item', 'files': 6, 'window': 'default', 'remote': 0}})
         if c == 2:
             cases.append(many_files_case(rnd, 'c10-%d-hundreds' % c, ['sum'], nfiles=rnd.pick([257, 260, 300, 515] if thorough else [257, 260, 300])))
     return cases
@@ -639,6 +646,11 @@ def gen_c20(rnd, n, thorough=False):
     for mx in ['010', '0100', '0777', '08', '0o17', '0O17', '0b101', '0x10', '0X1f', '+7', '-0', '00', '0', '10', '0x', '0b2', '1e3', ' 7', '7 ', '']:
         ll.append('cliargs generate %s' % ' '.join((a.encode().hex() or '-') for a in ['-dest', 'g.wsp', '-agg-method', 'sum', '-retentions', '1s:1m', '-max', mx]))
     cases.append({'id': 'c20-maxtext', 'lines': ll, 'tags': {'levels': 0, 'fill': 0, 'max': 0, 'args': 1}})
+    # archives of 4 GiB and more (the file is sparse): the file is as long as its header says
+    gl = []
+    for lay in [[(1, 378000000)], [(1, 86400), (5, 378432000)], [(1, 357913941)], [(1, 357913942)], [(2, 357913943)], [(1, 100), (2, 715827882)], [(1, 10), (5, 6)]]:
+        gl.append("cligensize dest=g/huge.wsp m=2 x=3f000000 layout=%s" % lay_csv(lay))
+    cases.append({'id': 'c20-huge', 'lines': gl, 'tags': {'levels': 1, 'fill': 0, 'max': 10, 'size': 'GiB'}})
     # layouts whose file is an exact number of mebibytes (and one slot more / less), created without fill:
     # the file has the length its header describes and can be opened
     for j, lay in enumerate([[(1, 87379)], [(1, 43200), (60, 44178)], [(1, 87380)]] if not thorough else [[(1, 87379)], [(1, 43200), (60, 44178)], [(1, 87380)], [(1, 87378)], [(1, 174759)]]):
@@ -813,6 +825,17 @@ def gen_c12(rnd, n, thorough=False):
             fl += fill_ops(rnd, 's/i1/f%d.wsp' % q, lay, 2, 0x3f000000, density=0.7, inconsistent=False)
         fl.append('conhttp s/i1/f0.wsp %d @' % rnd.randint(3, 6))
         cases.append({'id': 'c12-inflight-%d' % j, 'lines': fl, 'tags': {'layout': 'inflight'}})
+    # a base directory that is a symbolic link (to a directory whose own name has pattern characters): the base is
+    # the name the user gave -- for the commands and for a server started on it alike
+    ll = ["dirlink q[1] lnk"]
+    lay = CLI_LAYOUTS[rnd.pick(['two_1s', 'single'])]
+    for nm in ('lnk/i1/a.wsp', 'lnk/i1/b.wsp', 'lnk/i2/a.wsp'):
+        ll += fill_ops(rnd, nm, lay, 2, 0x3f000000, density=0.6, inconsistent=False)
+    for r in ('', ' remote=1 deep=1'):
+        ll.append("clisum base=lnk item=i* src=*.wsp from=0 until=0 archive=-1 header=1" + r)
+        ll.append("clidiff src=lnk:i1/*.wsp dest=lnk: from=0 until=0 archive=-1" + r)
+        ll.append("cliview src=lnk:i2/a.wsp from=0 until=0 archive=-1 header=1" + r)
+    cases.append({'id': 'c12-linkbase', 'lines': ll, 'tags': {'layout': 'link_base'}})
     # a glob that matches a round number of names (1000; thorough: other page-like counts): the list a server
     # sends is the list the directory gives, however many names it has
     for cnt in ([1000] if not thorough else [1000, 500, 512, 1024, 2000, 100, 256]):
